@@ -172,3 +172,47 @@ def check_one(typ, val):
             check_one(sub, item)
         return
     raise ValueError('unhandled signature %r' % typ)
+
+
+def convert_one(typ, val):
+    ''' What the receiving side of a bus message gets for ``val`` sent as type ``typ``: the
+    value is checked (as by check_one) and rebuilt from dbus-python's own types, as its
+    unmarshalling does (message-get-args.c; byte arrays arrive as Array of Byte). '''
+    from dbus import _types as T  # shim types
+    check_one(typ, val)
+    ch = typ[0]
+    simple = {'y': T.Byte, 'n': T.Int16, 'q': T.UInt16, 'i': T.Int32, 'u': T.UInt32, 'x': T.Int64, 't': T.UInt64}
+    if ch in simple:
+        if ch == 'y' and isinstance(val, (bytes, bytearray)):
+            return T.Byte(val[0])
+        return simple[ch](int(val))
+    if ch == 'b':
+        return T.Boolean(bool(val))
+    if ch == 'd':
+        return T.Double(float(val))
+    if ch in 'sog':
+        text = bytes(val).decode('utf-8') if isinstance(val, (bytes, bytearray)) else str(val)
+        return {'s': T.String, 'o': T.ObjectPath, 'g': T.Signature}[ch](text)
+    if ch == 'v':
+        return convert_one(guess_signature(val), val)
+    if ch == 'a':
+        sub = typ[1:]
+        if sub[0] == '{':
+            inner = split_signature(sub[1:-1])
+            return T.Dictionary(((convert_one(inner[0], key), convert_one(inner[1], item)) for key, item in val.items()),
+                                signature=sub[1:-1])
+        return T.Array([convert_one(sub, item) for item in val], signature=sub)
+    if ch == '(':
+        inner = split_signature(typ[1:-1])
+        return T.Struct(convert_one(sub, item) for sub, item in zip(inner, val))
+    raise ValueError('unhandled signature %r' % typ)
+
+
+def convert(signature, values):
+    types = split_signature(signature)
+    values = list(values)
+    if len(types) != len(values):
+        raise TypeError('More items found in D-Bus signature than in Python arguments'
+                        if len(types) > len(values) else
+                        'Fewer items found in D-Bus signature than in Python arguments')
+    return [convert_one(typ, val) for typ, val in zip(types, values)]
